@@ -358,7 +358,7 @@ class Leg:
 
     def __init__(self, name, gen, monitor=None, nontrivial=None, shrink=None, neighbours=None,
                  classify=None, stats=None, model_leg=None, impl_bin=None, impl_args=None, rule='',
-                 compare=None, shards=NPROC, impl_env=None):
+                 compare=None, shards=NPROC, impl_env=None, compare_case=None):
         self.name = name
         self.gen = gen
         self.monitor = monitor or (lambda case, out: [])
@@ -372,6 +372,7 @@ class Leg:
         self.impl_args = impl_args if impl_args is not None else [name]
         self.rule = rule
         self.compare = compare or (lambda m, i: m == i)
+        self.compare_case = compare_case   # optional (model_line, impl_line, case) -> bool, takes precedence
         self.shards = shards
         self.impl_env = impl_env
 
@@ -468,7 +469,7 @@ def run_leg(rep, pid, leg, harness, known):
             if key not in rep.distinct:
                 rep.distinct.add(key)
                 info['nontrivial'] += 1
-        if not leg.compare(m, i):
+        if not (leg.compare_case(m, i, case) if leg.compare_case else leg.compare(m, i)):
             dis.append((case, m, i))
         for v in leg.monitor(case, io):
             fid = leg.classify(case, io, v)
@@ -530,7 +531,7 @@ def shrink_case(rep, pid, leg, harness, case):
         mo, io = run_pair(rep, pid, leg, cands, harness)
         nxt = None
         for c, m, i in zip(cands, mo, io):
-            if not leg.compare(m, i):
+            if not (leg.compare_case(m, i, c) if leg.compare_case else leg.compare(m, i)):
                 nxt = c
                 break
         if nxt is None:
